@@ -33,16 +33,17 @@ func sortNaturalFilter(array []any, key any) any {
 			}
 			ev := rv.MapIndex(reflect.ValueOf(fmt.Sprint(key)).Convert(rv.Type().Key()))
 			if ev.IsValid() && ev.CanInterface() {
-				if s, ok := ev.Interface().(string); ok {
+				// a Drop is the value it stands for
+				if s, ok := values.ToLiquid(ev.Interface()).(string); ok {
 					return strings.ToLower(s)
 				}
 			}
 			return ""
 		}})
-	case array[0] != nil && reflect.TypeOf(array[0]).Kind() == reflect.String:
+	case values.ToLiquid(array[0]) != nil && reflect.TypeOf(values.ToLiquid(array[0])).Kind() == reflect.String:
 		sort.Sort(keySortable{result, func(s any) string {
 			// elements that are not strings sort first, like a missing key
-			str, _ := s.(string)
+			str, _ := values.ToLiquid(s).(string)
 			return strings.ToUpper(str)
 		}})
 	}
